@@ -81,8 +81,8 @@ class Inquiry(SCSICommand):
         "max_unmap_lba_count": [0xFFFFFFFF, 20],
         "max_unmap_bd_count": [0xFFFFFFFF, 24],
         "opt_unmap_gran": [0xFFFFFFFF, 28],
-        "unmap_gran_alignment": [0xFFFFFFFF, 32],
-        "max_ws_len": [0xFFFFFFFF, 36],
+        "unmap_gran_alignment": [0x7FFFFFFF, 32],
+        "max_ws_len": [0xFFFFFFFFFFFFFFFF, 36],
     }
 
     _block_dev_char_bits = {
